@@ -407,8 +407,70 @@ func runC20(ctx *h.Ctx) int {
 		k.Nontrivial(inj.kind, pe.LineNumberStart, len(pr.Src)/16)
 		k.Sample(inj.kind, map[string]interface{}{"source": pr.Src, "error": pe.Error()})
 	})
+	// stale-scope probe: after ANY valid file a fresh script whose body is a bare break / continue (also inside
+	// an if, a poryswitch case, an inline map script) must be rejected on that line: no construct before it may
+	// leave a loop or switch scope open
+	ctx.RunCases("stale-scope-probe", ctx.N(2400, 120000), func(k *h.Case) {
+		g := spec.NewGen(k.R, prof)
+		prog := g.FullProgram(1 + k.R.IntN(4))
+		pr := layoutOf(k, prog, 0.5)
+		base := h.Compile(pr.Src, optsOf(prog, true))
+		k.Count("evaluations", 1)
+		if !base.OK() {
+			k.Count("base_rejected", 1)
+			return
+		}
+		word := []string{"break", "continue"}[k.R.IntN(2)]
+		nl := "\n"
+		if strings.Contains(pr.Src, "\r\n") {
+			nl = "\r\n"
+		}
+		var tail string
+		var probeLine int // 0-based offset of the offending word inside tail
+		switch k.R.IntN(5) {
+		case 0:
+			tail = "script ProbeScr {" + nl + word + nl + "}" + nl
+			probeLine = 1
+		case 1:
+			tail = "script ProbeScr {" + nl + "lock" + nl + "if (flag(FLAG_PROBE)) {" + nl + word + nl + "}" + nl + "}" + nl
+			probeLine = 3
+		case 2:
+			tail = "mapscripts ProbeMap {" + nl + "MAP_SCRIPT_ON_LOAD {" + nl + word + nl + "}" + nl + "}" + nl
+			probeLine = 2
+		case 3:
+			tail = "script ProbeScr {" + nl + "lock" + nl + "ProbeLbl:" + nl + word + nl + "}" + nl
+			probeLine = 3
+		default:
+			tail = "script ProbeScr { " + word + " }" + nl
+			probeLine = 0
+		}
+		src := pr.Src
+		if !strings.HasSuffix(src, "\n") {
+			src += nl
+		}
+		at := strings.Count(src, "\n") + 1 + probeLine
+		src += tail
+		k.SetSource(src)
+		res := h.Compile(src, optsOf(prog, k.R.IntN(2) == 0))
+		k.Count("evaluations", 1)
+		if res.Panic != nil {
+			k.Violation("probe-panic:"+word, fmt.Sprintf("panic instead of an error: %v", res.Panic), nil)
+			return
+		}
+		if res.Err == nil {
+			k.Violation("probe-accepted:"+word, fmt.Sprintf("a bare '%s' in a fresh script appended to a valid file was compiled instead of being rejected (a scope opened earlier in the file is still open)", word), map[string]interface{}{"appended": tail, "output": res.Out})
+			return
+		}
+		var pe parser.ParseError
+		if !errors.As(res.Err, &pe) || pe.LineNumberStart != at {
+			k.Violation("probe-wrong-line:"+word, fmt.Sprintf("the appended '%s' is on line %d; reported: %v", word, at, res.Err), map[string]interface{}{"appended": tail})
+			return
+		}
+		k.Count("probe_rejected_at_line:"+word, 1)
+		k.Nontrivial("probe", word, at, len(prog.Items))
+	})
 	return ctx.Finish(
-		"valid generated files with exactly one injected violation at a random position under scrambled layouts: break outside loop/switch (incl. inline map scripts, poryswitch cases, after a closed loop), continue outside a loop (incl. in a switch outside loops), continue not last in its block, duplicate case value (literal and via a constant), second default, redefined constant, text/movement statement named like a generated label, label statement equal to a generated sub-label of its script / the script's own name / a text label (anywhere, incl. unreachable code). Oracle: the result is an error (never output), it is a located error, and its start line lies inside the offending construct's source line range (either occurrence for clashes between two definitions). distinct = (kind, error line, source length / 16)",
+		"valid generated files with exactly one injected violation at a random position under scrambled layouts: break outside loop/switch (incl. inline map scripts, poryswitch cases, after a closed loop), continue outside a loop (incl. in a switch outside loops), continue not last in its block, duplicate case value (literal and via a constant), second default, redefined constant, text/movement statement named like a generated label, label statement equal to a generated sub-label of its script / the script's own name / a text label (anywhere, incl. unreachable code). Oracle: the result is an error (never output), it is a located error, and its start line lies inside the offending construct's source line range (either occurrence for clashes between two definitions). Plus the stale-scope probe: a fresh script / inline map script with a bare break or continue appended to any valid file must be rejected on that very line. distinct = (kind, error line, source length / 16)",
 		ctx.N(500, 5000),
 		[]string{"the base program (before injection) compiles; the injected construct is the only violation"})
 }
